@@ -590,7 +590,9 @@ def indexed(I, it, node):
             items = it.items
             return IndexedSeq(len(items), None, lambda I_, i: items[i])
         e, ety = it.e, it.ety
-        return IndexedSeq(None, z3.Length(e), lambda I_, i: wrap_elt(e[lift(i)], ety))
+        r = IndexedSeq(None, z3.Length(e), lambda I_, i: wrap_elt(e[lift(i)], ety))
+        r.e = e
+        return r
     if isinstance(it, (tuple, list)):
         items = list(it)
         return IndexedSeq(len(items), None, lambda I_, i: from_host(items[i]))
@@ -602,7 +604,9 @@ def indexed(I, it, node):
             return IndexedSeq(None, z3.Length(e), lambda I_, i: Sym(z3.Unit(e[lift(i)]), 'str'))
         if isinstance(it.ty, tuple) and it.ty[0] in ('seq', 'list'):
             e, ety = it.e, it.ty[1]
-            return IndexedSeq(None, z3.Length(e), lambda I_, i: wrap_elt(e[lift(i)], ety))
+            r = IndexedSeq(None, z3.Length(e), lambda I_, i: wrap_elt(e[lift(i)], ety))
+            r.e = e
+            return r
     if isinstance(it, PDict):
         keys = list(it.d.keys())
         return IndexedSeq(len(keys), None, lambda I_, i: keys[i])
@@ -1342,6 +1346,8 @@ def m_iter(I, args, kwargs, node):
     v = args[0]
     if isinstance(v, IterState):
         return v
+    if (isinstance(v, PList) and not v.concrete) or (isinstance(v, Sym) and isinstance(v.ty, tuple) and v.ty[0] in ('seq', 'list')):
+        return v            # iteration over a symbolic-length sequence: the sequence itself (consumed once, in order)
     return IterState(concrete_items(I, v, node))
 
 
